@@ -750,9 +750,10 @@ def run(ctx):
     ctx.assumptions += ['transcription of qelib1.inc / stdgates.inc in coq/Vendor/Qasm.v', 'the Python reader of the emitted subset',
                         'docstring transcription in coq/Gates/GateSpecs.v', 'float tolerance 10^(1-precision) * max(1, angles/10) + 1e-9',
                         'an undefined mnemonic of 3.0 (sxdg) is reported and then read with its qelib1.inc meaning so that the rest of the program is still compared']
-    err = tables.regenerate(['EigenTables'])
-    if err['EigenTables']:
-        ctx.mark_broken('table:EigenTables', err['EigenTables'])
+    err = tables.regenerate(['EigenTables', 'QasmMnemonics'])
+    for name, e in err.items():
+        if e:
+            ctx.mark_broken('table:' + name, e)
     ctx.set_obligations(coq.compile_props('C19'))
     k = 1 if ctx.tier == 'quick' else 10
     b = Batch(ctx, cirq)
